@@ -39,21 +39,41 @@ impl Chooser {
     }
 }
 
+/// Choice points beyond this index never deviate (a healthy conversation has well under 100; a conversation that
+/// degenerates into thousands of retries would otherwise make the bounded search explode).
+pub const MAX_DEVIATION_POINT: usize = 300;
+pub static DEADLINE_HIT: std::sync::atomic::AtomicBool = std::sync::atomic::AtomicBool::new(false);
+pub static CHOICE_POINT_CAP_HIT: std::sync::atomic::AtomicBool = std::sync::atomic::AtomicBool::new(false);
+
 /// Deviation-bounded exploration of all choice sequences (iterative context bounding, adapted).
-/// `run` executes one complete run with the given chooser and returns it back with a result.
-pub fn explore_choices<R>(bound: usize, mut run: impl FnMut(Chooser) -> (Chooser, R), mut each: impl FnMut(&Chooser, R)) -> u64 {
+/// `run` executes one complete run with the given chooser and returns it back with a result; `each` judges the run and
+/// says whether its deviations are worth exploring (false once the run itself is a counterexample).
+pub fn explore_choices<R>(bound: usize, deadline: Option<std::time::Instant>, mut run: impl FnMut(Chooser) -> (Chooser, R), mut each: impl FnMut(&Chooser, R) -> bool) -> u64 {
     let mut stack: Vec<Vec<u8>> = vec![vec![]];
     let mut runs = 0u64;
     while let Some(prefix) = stack.pop() {
+        if let Some(d) = deadline {
+            if runs > 0 && std::time::Instant::now() >= d {
+                DEADLINE_HIT.store(true, std::sync::atomic::Ordering::Relaxed);
+                break;
+            }
+        }
         let plen = prefix.len();
         let (ch, r) = run(Chooser::with_prefix(prefix));
         runs += 1;
-        // children: deviate at any later point
         let choices: Vec<u8> = ch.taken.iter().map(|t| t.2).collect();
+        let alts: Vec<u8> = ch.taken.iter().map(|t| t.1).collect();
+        if !each(&ch, r) {
+            continue;
+        }
+        // children: deviate at any later point
         let mut dev_before = choices[..plen.min(choices.len())].iter().filter(|&&c| c != 0).count();
-        for i in plen..ch.taken.len() {
+        if choices.len() > MAX_DEVIATION_POINT {
+            CHOICE_POINT_CAP_HIT.store(true, std::sync::atomic::Ordering::Relaxed);
+        }
+        for i in plen..choices.len().min(MAX_DEVIATION_POINT) {
             if dev_before + 1 <= bound {
-                for alt in 1..ch.taken[i].1 {
+                for alt in 1..alts[i] {
                     let mut p = choices[..i].to_vec();
                     p.push(alt);
                     stack.push(p);
@@ -63,7 +83,6 @@ pub fn explore_choices<R>(bound: usize, mut run: impl FnMut(Chooser) -> (Chooser
                 dev_before += 1;
             }
         }
-        each(&ch, r);
     }
     runs
 }
@@ -384,6 +403,10 @@ impl Card {
             // not yet in SPI mode: the card does not answer
             return;
         }
+        if !(cmd == 25 || cmd == 55 || (was_app && cmd == 23)) {
+            // the pre-erase announcement only applies to the multi-block write that directly follows it
+            self.pre_erase = None;
+        }
         match (was_app, cmd) {
             (_, 0) => {
                 self.powered_up_cmd0 = true;
@@ -474,6 +497,15 @@ impl Card {
             (_, 24) | (_, 25) => match self.addr_to_block(arg) {
                 Some(b) => {
                     self.respond(&[0x00]);
+                    if cmd == 25 {
+                        // the blocks announced with ACMD23 are erased before the data arrives; whatever of
+                        // them the host then does not write keeps the erased contents
+                        if let Some(n) = self.pre_erase.take() {
+                            for k in b..b.saturating_add(n.min(1 << 16)).min(self.capacity_blocks) {
+                                self.mem.insert(k, [0xEE; 512]);
+                            }
+                        }
+                    }
                     self.rx = Rx::WriteToken { multi: cmd == 25, addr: b };
                 }
                 None => self.respond(&[0x40]),
